@@ -50,6 +50,31 @@ func c05Special(rng *core.Rand, k int) []c05Input {
 		b.WriteString("let sum () =\n  let r = mkPlain ()\n  r.X + r.Y\n")
 		add("same-field-records", b.String())
 	}
+	// generic records sharing one field-name set (alone, or mixed with a non-generic one)
+	{
+		nr := 2 + rng.Intn(3)
+		names := []string{"Pair", "Both", "Duo", "Twin", "Couple"}
+		core.Shuffle(rng, names)
+		var b strings.Builder
+		b.WriteString("package main\n\n")
+		for i := 0; i < nr; i++ {
+			switch rng.Intn(3) {
+			case 0:
+				fmt.Fprintf(&b, "type %s<T> = {Fst: T; Snd: T}\n\n", names[i])
+			case 1:
+				fmt.Fprintf(&b, "type %s<T, U> = {Fst: T; Snd: U}\n\n", names[i])
+			default:
+				fmt.Fprintf(&b, "type %s<T> = {Snd: T; Fst: int}\n\n", names[i])
+			}
+		}
+		if rng.Chance(0.3) {
+			b.WriteString("type Plain = {Fst: int; Snd: int}\n\n")
+		}
+		b.WriteString("let mk (a:int) =\n  {Fst=a; Snd=a}\n\n")
+		b.WriteString("let mkSwapped (a:int) =\n  {Snd=a; Fst=a}\n\n")
+		b.WriteString("let use (a:int) =\n  let r = mk a\n  r.Fst + r.Snd\n")
+		add("same-field-generic-records", b.String())
+	}
 	// unions: exhaustive, default, and non-exhaustive matches (reject path)
 	{
 		nc := 2 + rng.Intn(4)
